@@ -49,7 +49,9 @@ pub fn run(ctx: &Ctx) -> usize {
     first = false;
     r
   };
-  let days = special_days(&mut rng);
+  let mut days = special_days(&mut rng);
+  // every day of 1582-09-20 .. 1582-11-10 (day numbers 2299146..2299187 run through the ten dropped dates)
+  days.extend(2299146i64..=2299187);
   let secs: [i64; 12] = [0, 1, 59, 60, 3599, 3600, 43199, 43200, 82800, 86340, 86398, 86399];
   let scale = if ctx.quick() { 5 } else { 25 };
   // add
@@ -63,11 +65,12 @@ pub fn run(ctx: &Ctx) -> usize {
     let n: i64 = match round % 7 {
       0 => *rng.pick(&[0i64, 1, -1, 59, -59, 60, -60, 61, 3600, -3600, 3599, 86399, -86399, 86400, -86400, 86401, -86401, 172800]),
       1 => rng.range(-120, 120),
-      2 => rng.range(-100_000, 100_000),
+      // whole days (and a little more) up to +-40 days: steps that stay in one month number or cross the 1582 gap
+      2 => 86400 * rng.range(-40, 40) + *rng.pick(&[0i64, 0, 1, -1, 3600]),
       3 => rng.range(-1_000_000_000, 1_000_000_000),
       4 => -(s + 1),
       5 => 86400 - s,
-      _ => rng.range(-40_000_000, 40_000_000),
+      _ => if round % 14 == 6 { rng.range(-100_000, 100_000) } else { rng.range(-40_000_000, 40_000_000) },
     };
     // keep the result in range (by day number)
     let tj = j + (s + n).div_euclid(86400);
